@@ -270,8 +270,18 @@ def scope_program(rng, big=0):
         longs = [n for n in names if len(n) > 2]
         # the long names are used more often than the short ones: the short ones are renamed after them
         refs = ' + '.join(rng.sample(longs, min(70, len(longs))) + [n for n in names if len(n) <= 2][:3])
-        top += ' function big(%s) { var %s; return %s + a + b + aa + do_ + if_; }' % (
-            ', '.join(names[:3]), ', '.join(names[3:]), refs)
+        # every kind of scope the renamer knows, nested in the crowded one (their names are chosen among what
+        # hundreds of siblings left over: the reserved words the generator had to step over are the holes)
+        inner = (' try { %s(); } catch (err) { %s = err; var viaCatch = function (p) { return p + err + %s; }; }'
+                 ' try { %s(); } catch (e2) { try { e2(); } catch (e3) { %s = e2 + e3; } }'
+                 ' function helper(q) { var r = q + %s; return r; }'
+                 ' var fe = function named(s) { return s ? named(s - 1) : %s; };' % tuple(rng.sample(longs, 7)))
+        if rng.random() < 0.5:
+            top += ' function big(%s) { var %s;%s return %s + a + b + aa + do_ + if_; }' % (
+                ', '.join(names[:3]), ', '.join(names[3:]), inner, refs)
+        else:
+            # the crowded scope is the global one (renamed with obfuscate_globals)
+            top += ' var %s;%s use(%s);' % (', '.join(names), inner, refs)
     return top
 
 
